@@ -33,6 +33,9 @@ off64_t _GD_GetIOPos(DIRFILE *D, gd_entry_t *E, off64_t index_pos)
         E->field);
   }
 
+  if (!(E->flags & GD_EN_CALC))
+    _GD_CalculateEntry(D, E, 1);
+
   if (_GD_FindInputs(D, E, 1)) {
     D->recurse_level--;
     dreturn("%i", D->error);
@@ -269,6 +272,9 @@ int _GD_Seek(DIRFILE *D, gd_entry_t *E, off64_t offset, unsigned int mode)
     GD_SET_RETURN_ERROR(D, GD_E_RECURSE_LEVEL, GD_E_RECURSE_CODE, NULL, 0,
         E->field);
   }
+
+  if (!(E->flags & GD_EN_CALC))
+    _GD_CalculateEntry(D, E, 1);
 
   _GD_FindInputs(D, E, 1);
 
